@@ -20,7 +20,10 @@ import c08_shapes as S
 from common import Check, CACHE, DRIVER, TMP, MachineryError, sh
 
 MAIN_STACK_KIB = 8192          # default main-thread stack (ulimit -s 8192)
-HEADROOM_KIB = 512             # required slack above budget + measured gap (what no shape measured)
+# environment dimension: the kernel puts argv/envp at the top of the main-thread stack (at most a quarter
+# of the stack limit), so a large environment shrinks what the interpreter has
+ENV_VARS, ENV_VAR_BYTES = 12, 120000          # ~1.4 MiB (one string may not exceed 128 KiB)
+ENV_SHAPES = ["direct", "deep_expr", "mutual2", "method_push_index"]
 CRASH = "native-overflow"
 SOE = "stack-overflow-error"
 WORKERS = 8
@@ -50,11 +53,23 @@ STAGE_CONSTRUCT = {
 }
 
 
-def naija_env():
+def naija_env(mode="default"):
+    """default: the caller's environment; empty: `env -i`; large: ~1.4 MiB of padding variables."""
+    if mode == "empty":
+        return {}
+    if mode == "large":
+        e = {"RUST_BACKTRACE": "0", "NO_COLOR": "1"}
+        for i in range(ENV_VARS):
+            e[f"NV_PAD_{i:02d}"] = "x" * ENV_VAR_BYTES
+        return e
     e = dict(os.environ)
     e["RUST_BACKTRACE"] = "0"
     e["NO_COLOR"] = "1"
     return e
+
+
+def env_bytes(mode):
+    return sum(len(k) + len(v) + 2 for k, v in naija_env(mode).items())
 
 
 def strip_ansi(s):
@@ -89,20 +104,20 @@ def classify(rc, out, err):
 _MEMO = {}
 
 
-def run_src(binary, src, stack_kib=MAIN_STACK_KIB, cpu_s=120, fresh=False):
-    """Run the real CLI on `src` in its own process with the given stack limit (memoised per binary,
-    program and stack size within one check run; `fresh` forces a new run)."""
+def run_src(binary, src, stack_kib=MAIN_STACK_KIB, cpu_s=120, fresh=False, env="default"):
+    """Run the real CLI on `src` in its own process with the given stack limit and environment (memoised
+    per binary, program, stack size and environment within one check run; `fresh` forces a new run)."""
     import hashlib
-    key = (binary, hashlib.sha1(src.encode()).hexdigest(), stack_kib)
+    key = (binary, hashlib.sha1(src.encode()).hexdigest(), stack_kib, env)
     if not fresh and key in _MEMO:
         return _MEMO[key]
-    r = _run_src(binary, src, stack_kib, cpu_s)
+    r = _run_src(binary, src, stack_kib, cpu_s, env)
     if r[0] != "timeout":
         _MEMO[key] = r
     return r
 
 
-def _run_src(binary, src, stack_kib, cpu_s):
+def _run_src(binary, src, stack_kib, cpu_s, env="default"):
     os.makedirs(TMP, exist_ok=True)
     fd, path = tempfile.mkstemp(suffix=".ns", prefix="c08_", dir=TMP)
     os.write(fd, src.encode())
@@ -116,10 +131,13 @@ def _run_src(binary, src, stack_kib, cpu_s):
     t0 = time.time()
     try:
         p = subprocess.run([binary, path], stdin=subprocess.DEVNULL, stdout=subprocess.PIPE, stderr=subprocess.PIPE,
-                           preexec_fn=pre, timeout=cpu_s * 3, env=naija_env())
+                           preexec_fn=pre, timeout=cpu_s * 3, env=naija_env(env))
         rc, out, err = p.returncode, p.stdout.decode(errors="replace"), p.stderr.decode(errors="replace")
     except subprocess.TimeoutExpired:
         rc, out, err = None, "", "timeout"
+    except OSError as e:
+        # E2BIG: argv+envp exceed a quarter of the stack limit -- the process cannot even start
+        rc, out, err = 126, "", f"exec failed: {e}"
     finally:
         try:
             os.unlink(path)
@@ -161,6 +179,9 @@ def run(ck: Check):
         "frame cost; a traversal of a nested value by the unguarded helpers (clone_into, promote, Display, join, drop glue) is "
         "folded into one frame whose cost carries the nesting bound (proviso d of runtime_depth_bound_proviso) -- nothing "
         "in the code enforces that bound (open findings D-08-runtime-data_*)",
+        "ENVIRONMENT: argv/envp live at the top of the main-thread stack (kernel cap: a quarter of the stack limit = 2 MiB); "
+        "the obligation budget_fits_main_stack reserves that much, and the recursion shapes are also run with `env -i` and "
+        "with ~1.4 MiB of environment",
         "the 8 MiB stack is applied with RLIMIT_STACK to the child process (= `ulimit -s 8192`), main thread, as the CLI runs",
     ]
     with phase(ck, "build+lean"):
@@ -191,6 +212,8 @@ def run(ck: Check):
             nest_out[prof] = nest_shapes(ck, bins[prof], prof, crashes)
         with phase(ck, "data_shapes"):
             data_out[prof] = data_shapes(ck, bins[prof], prof, crashes)
+        with phase(ck, "env_shapes"):
+            measured[prof]["__environment__"] = env_shapes(ck, bins[prof], prof, crashes)
     ck.extra_cov["measured_frame_costs"] = measured
     ck.extra_cov["nest_outcomes"] = nest_out
     ck.extra_cov["data_outcomes"] = data_out
@@ -219,6 +242,8 @@ def run(ck: Check):
             continue        # further unlisted crashes are in coverage.crash_signatures; six replay files are enough
         ck.report_violation({"kind": "native-stack-overflow", "signature": c["signature"], "shape": c["shape"],
                              "depth": c["depth"], "profile": c["profile"], "cut": c.get("cut", "none"),
+                             "env": c.get("env", "default"),
+                             "env_spec": {"large": f"{ENV_VARS} variables NV_PAD_nn of {ENV_VAR_BYTES} bytes", "empty": "env -i"},
                              "outcomes": c["outcomes"], "what": c["what"],
                              "replay_cmd": "./check C08 --replay <this file>"})
     ck.extra_cov["crash_signatures"] = sorted(seen)
@@ -342,14 +367,16 @@ def runtime_shapes(ck, binary, prof, crashes):
     return out
 
 
-def min_stack(binary, src, budget_kib):
-    """Smallest `ulimit -s` (KiB, 4 KiB steps) with which the run still ends in the Stack overflow error."""
+def min_stack(binary, src, budget_kib, env="default"):
+    """Smallest `ulimit -s` (KiB, 4 KiB steps) with which the run still ends in the Stack overflow error.
+    (The environment block may not exceed a quarter of the limit, or exec fails: such limits count as
+    too small, which is what they are.)"""
     lo, hi = budget_kib, MAIN_STACK_KIB
-    if run_src(binary, src, lo)[0] == SOE:
+    if run_src(binary, src, lo, env=env)[0] == SOE:
         return lo
     while hi - lo > 4:
         mid = (lo + hi) // 2 // 4 * 4
-        if run_src(binary, src, mid)[0] == SOE:
+        if run_src(binary, src, mid, env=env)[0] == SOE:
             hi = mid
         else:
             lo = mid
@@ -378,24 +405,79 @@ def budget_bytes():
     return int(p.stdout.decode().strip() or 0)
 
 
-def arithmetic(ck, measured):
-    """STACK_BUDGET + G_measured + headroom <= 8 MiB, per profile, from the bisected stack needs."""
+def limits():
+    """Constants of the Lean arithmetic obligation (Model/Depth.lean), in KiB."""
+    p = sh([DRIVER, "depth"], inp=b"limits\n")
+    kv = dict(x.split("=") for x in p.stdout.decode().split())
+    return {k: int(v) // 1024 for k, v in kv.items()}
+
+
+def env_shapes(ck, binary, prof, crashes):
+    """Unbounded recursion on the 8 MiB stack with an empty environment (`env -i`) and with ~1.4 MiB of
+    environment at the top of the stack: both must end in `Stack overflow`; the stack need is bisected
+    for one shape in both, which shows how much of the stack the environment takes."""
     budget_kib = budget_bytes() // 1024
+    out = {"large_env_bytes": env_bytes("large")}
+
+    def job(a):
+        name, mode = a
+        src = S.RT[name]["src"](S.INF)
+        return name, mode, run_src(binary, src, env=mode)[0], src
+
+    for name, mode, o, src in pmap(job, [(n, m) for n in ENV_SHAPES for m in ("empty", "large")]):
+        ck.evaluations += 1
+        out.setdefault(name, {})[mode] = o
+        ck.count(f"env_{prof}_{mode}_{o}")
+        ck.nontrivial_case(f"{prof}:{mode}:{src}")
+        if o == CRASH:
+            outs = [o] + [run_src(binary, src, env=mode, fresh=True)[0] for _ in range(2)]
+            if outs.count(CRASH) == 3:
+                crashes.append({"signature": {"defect": "C08-env", "stage": "runtime", "construct": "rt:" + name, "env": mode},
+                                "shape": name, "depth": S.INF, "profile": prof, "env": mode, "outcomes": outs,
+                                "what": f"unbounded recursion `{name}` overflows the native stack with a {mode} environment "
+                                        f"({env_bytes(mode)} bytes of envp at the top of the 8 MiB stack, {prof}): "
+                                        "budget + overshoot + environment exceed the main-thread stack"})
+        elif o != SOE:
+            ck.broken.append({"kind": "shape-outcome", "what": f"{name} ({prof}, env {mode}): expected Stack overflow, got {o}"})
+    src = S.RT["direct"]["src"](S.INF)
+    if out.get("direct", {}).get("empty") == SOE:
+        # with `env -i` the whole need is the interpreter's own; (no bisection with the large environment:
+        # exec refuses an environment above a quarter of the limit, which would dominate the result)
+        out["min_stack_kib"] = {"empty": min_stack(binary, src, budget_kib, "empty")}
+    return out
+
+
+def arithmetic(ck, measured):
+    """The arithmetic obligation with the measured numbers (Lean proves it for the allowances:
+    budget_fits_main_stack): measured overshoot <= overshoot allowance, and
+    STACK_BUDGET + measured overshoot + ENV_ALLOWANCE + headroom <= 8 MiB, per profile."""
+    budget_kib = budget_bytes() // 1024
+    lim = limits()
     summary = {}
     for prof, shapes in measured.items():
-        needs = [r["min_stack_kib"] for r in shapes.values() if "min_stack_kib" in r]
+        needs = [r["min_stack_kib"] for k, r in shapes.items() if k != "__environment__" and "min_stack_kib" in r]
+        env = shapes.get("__environment__", {})
+        if "min_stack_kib" in env:
+            needs.append(env["min_stack_kib"]["empty"])
         if not needs:
             ck.broken.append({"kind": "measurement", "what": f"no stack need could be measured ({prof})"})
             continue
         need = max(needs)
-        g = need - budget_kib
-        ok = need + HEADROOM_KIB <= MAIN_STACK_KIB
-        summary[prof] = {"stack_budget_kib": budget_kib, "max_stack_needed_kib": need, "G_measured_kib": g,
-                         "required_headroom_kib": HEADROOM_KIB, "slack_kib": MAIN_STACK_KIB - need,
-                         "fits_8MiB": ok, "shapes_measured": len(needs)}
-        if not ok:
-            ck.broken.append({"kind": "arithmetic", "what": f"{prof}: budget {budget_kib} KiB + measured gap {g} KiB + "
-                              f"headroom {HEADROOM_KIB} KiB exceeds the {MAIN_STACK_KIB} KiB main-thread stack"})
+        over = need - budget_kib
+        total = budget_kib + over + lim["env"] + lim["headroom"]
+        ok = over <= lim["overshoot"] and total <= lim["main"]
+        summary[prof] = {"stack_budget_kib": budget_kib, "max_stack_needed_kib": need, "measured_overshoot_kib": over,
+                         "overshoot_allowance_kib": lim["overshoot"], "env_allowance_kib": lim["env"],
+                         "required_headroom_kib": lim["headroom"], "main_stack_kib": lim["main"],
+                         "budget+overshoot+env+headroom_kib": total, "slack_kib": lim["main"] - total,
+                         "fits_8MiB": ok, "shapes_measured": len(needs),
+                         "environment_measured": env.get("min_stack_kib")}
+        if over > lim["overshoot"]:
+            ck.broken.append({"kind": "arithmetic", "what": f"{prof}: measured overshoot past the budget line {over} KiB exceeds "
+                              f"the allowance {lim['overshoot']} KiB of budget_fits_main_stack"})
+        elif not ok:
+            ck.broken.append({"kind": "arithmetic", "what": f"{prof}: budget {budget_kib} + overshoot {over} + environment "
+                              f"{lim['env']} + headroom {lim['headroom']} KiB exceed the {lim['main']} KiB main-thread stack"})
     ck.extra_cov["stack_arithmetic"] = summary
 
 
@@ -611,8 +693,9 @@ def leaf_costs(ck, binary, prof):
     out = dict(pmap(job, list(LEAVES.items())))
     ck.evaluations += len(out) * 30
     worst = max((v for v in out.values() if v), default=0)
-    if budget_kib + worst + HEADROOM_KIB > MAIN_STACK_KIB:
-        ck.broken.append({"kind": "arithmetic", "what": f"{prof}: a builtin below the budget line needs {worst} KiB"})
+    if worst > limits()["overshoot"]:
+        ck.broken.append({"kind": "arithmetic", "what": f"{prof}: a builtin below the budget line needs {worst} KiB, "
+                          "more than the overshoot allowance of budget_fits_main_stack"})
     return out
 
 
@@ -632,11 +715,18 @@ def replay(ck, data):
             src = sh_["src"](depth)
         if sh_["kind"] == "nest" and data.get("cut") in ("parser", "resolver"):
             src = S.stage_cut(src, data["cut"])
-        outs = [run_src(binary, src, cpu_s=240, fresh=True)[0] for _ in range(3)]
-        print(f"shape={data['shape']} depth={depth} profile={prof} cut={data.get('cut', 'none')} "
+        outs = [run_src(binary, src, cpu_s=240, fresh=True, env=data.get("env", "default"))[0] for _ in range(3)]
+        print(f"shape={data['shape']} depth={depth} profile={prof} cut={data.get('cut', 'none')} env={data.get('env', 'default')} "
               f"implementation outcomes (8 MiB stack): {outs}")
-        print("model: the stage is on an unguarded cycle (Props/C08.lean, negative theorems)" if data.get("signature")
-              else "model: n/a")
+        sig = data.get("signature") or {}
+        if sig.get("defect") == "C08-env":
+            print("model: obligation budget_fits_main_stack (STACK_BUDGET + overshoot + environment allowance + headroom "
+                  f"<= 8 MiB); environment of this run: {env_bytes(data.get('env', 'default'))} bytes "
+                  f"({ENV_VARS} variables x {ENV_VAR_BYTES} bytes when `large`; none when `empty`)")
+        elif sig:
+            print("model: the stage is on an unguarded cycle (Props/C08.lean, negative theorems)")
+        else:
+            print("model: n/a")
         print("oracle: outcome must be `ok`, a diagnostic or `stack-overflow-error`; never native-overflow")
         if CRASH in outs:
             rc = 1
